@@ -44,6 +44,24 @@ Hardening pass 2 (HARDENING2.md classes E, F):
      Interferogram / RichData / Wavefront history alphabets.  The grid contracts remember which identical calls (same routine, argument
      values AND types, configuration) were right earlier in the process: a later failure of such a call is keyed
      `.../same-call-was-right-earlier` (state that survived a call), and the witness names the foreign traffic that ran before.
+
+Hardening pass 3 (HARDENING3.md classes G, H, I):
+  H  section 6c `special_slices_workload`: coordinate vectors of every legal kind for slices — built like make_xy_grid, with the exact zero
+     on an arbitrary sample (cropped / re-registered grids), np.linspace-built (origin zero only to rounding: linspace(-1, 1, n)[n//2] =
+     -1.1e-16 for n = 99, 197, 207, ...), accumulated with cumsum, shifted and shifted back — each ASCENDING and DESCENDING, through the
+     public Slices(data, x, y[, twosided]) class, through the public x / y setters of RichData / Interferogram followed by slices(), through a
+     NEGATIVE dx handed to the containers, and through Wavefront.focus with a negative focal length; all shapes 1..9 x 1..9 (thorough 33 x 33)
+     and EVERY length 1..420 (thorough 4000) for the rounded-zero kinds.  Law: the slice passes through the one sample whose coordinate is
+     nearest zero (monitor-side uniqueness check: |x| <= 1e-9 of the spacing, every other sample >= half a spacing away; otherwise excluded
+     and counted), which is sample n//2 whenever the library built the grid.  Keys `C04/slices/special:<direction>,<exact-zero |
+     zero-to-rounding>,<at-n//2 | off-centre>/<values | abscissae>` name the class of the coordinate vector whose origin was missed.
+     `pad_sweep_workload`: pad count 0 (pad to the same size) through every pad form, crop to the same size, Q exactly 1 (python int /
+     float, numpy float64 / int64) passed TOGETHER with a non-trivial out_shape, fill or np.pad mode (the "fast path" temptation).
+  I  `pad_sweep_workload`: every axis length 1..64 x pad count 0..9 on BOTH axes (640 cells, the axis-1 cell of case k is cell 7k+3 mod 640)
+     through pad2d(out_shape=), pad2d(Q=1, out_shape=), pad2d(mode= nine numpy modes), Wavefront.pad2d (in / out of place),
+     Interferogram.pad(samples= tuple / list / int, shape= tuple / list, fill omitted / positional / keyword) and back through crop_center
+     (tuple / list) and Wavefront.crop; thorough 96 x 14.
+  G  dx of the slices / grids in {1e-9, 1e9} next to the ordinary ones (the uniqueness margin of the origin sample is relative to the spacing).
 """
 import copy
 import itertools
@@ -66,7 +84,9 @@ RULE = ('per-axis (in,out) length cells enumerated exhaustively up to a bound an
         'ragged, 1xN, Nx1, 3x40); argument forms (class E) = every accepted container / scalar type / dtype kind / keyword form of every '
         'argument, one argument at a time against the canonical call, over every parity combination of axis length and pad count; '
         'foreign-traffic preludes (class F) on the same axis lengths before a fixed share of the grid / slices / centroid / form cells and as '
-        'an operation of the history alphabets; a case is non-trivial when the array has >= 2 samples or the shape changes / the history '
+        'an operation of the history alphabets; special slices (class H) = coordinate-vector kind {fft, offset, linspace, cumsum, recentred} x direction '
+        'per axis x route {Slices class, x / y setters, negative dx, focus(efl < 0)} x shapes 1..9 x 1..9 and every length 1..420 for the rounded-zero kinds; '
+        'pad sweep (class I) = every (axis length 1..64, pad count 0..9) cell on both axes x every pad / crop form, Q exactly 1 with out_shape; a case is non-trivial when the array has >= 2 samples or the shape changes / the history '
         'contains a mutator; distinct = distinct descriptor (shapes, mode, fill, dtype, layout, offsets, full op list)')
 ASSUMPTIONS = ['origin sample of an axis of length n is index n//2 (the convention the property states)',
                'for non-constant pad modes only the placement of the original block and agreement with numpy.pad of '
@@ -82,13 +102,18 @@ ASSUMPTIONS = ['origin sample of an axis of length n is index n//2 (the conventi
                'shapes, unsigned 8-bit n) are out of domain; only VALUES are compared between forms, never the dtype handed back',
                'a caller may edit in place an array that fftrange / forward_ft_unit / make_xy_grid returned to it (every one is a fresh array '
                'on the current tree and prysm\'s own callers do so); the foreign-traffic prelude does, and is never judged itself',
-               'float32 / float16 scalar arguments (dx, diameter) lower the spacing tolerance of the grid contracts to the round-off of that type']
+               'float32 / float16 scalar arguments (dx, diameter) lower the spacing tolerance of the grid contracts to the round-off of that type',
+               'special slices: "the origin sample" of a user-supplied coordinate vector is the one sample whose coordinate is zero to rounding (|x| <= 1e-9 '
+               'of the spacing) while every other sample is at least half a spacing away; vectors without such a sample (even-length symmetric linspace, origin '
+               'cropped away) are excluded and counted; coordinate vectors given as lists / tuples raise TypeError on the current tree (out of domain); a '
+               'negative dx is in domain (the current tree builds descending grids with the zero on n//2 and Wavefront.focus(efl < 0) produces them)']
 REQUIRED = ['pad2d.placement', 'crop_center.placement', 'fftrange.origin', 'make_xy_grid.origin', 'forward_ft_unit.origin',
             'roundtrip.crop(pad)', 'slices.through-origin', 'centroid.point-source',
             'reuse.pad2d.later-call', 'reuse.crop_center.later-call', 'reuse.centroid.layout', 'reuse.slices.layout',
             'history.slices.through-current-origin', 'history.grid-origin-after-centring-op', 'history.wavefront.shadow',
             'precision.32-then-64.grids',
-            'forms.pad2d', 'forms.Wavefront.pad2d', 'forms.Interferogram.pad', 'forms.crop', 'forms.grids', 'forms.centroid', 'forms.slices']
+            'forms.pad2d', 'forms.Wavefront.pad2d', 'forms.Interferogram.pad', 'forms.crop', 'forms.grids', 'forms.centroid', 'forms.slices',
+            'special.slices.nearest-zero-sample', 'sweep.pad-forms']
 
 CTX = None
 
@@ -1543,6 +1568,312 @@ def precision_switch_workload(ctx, rng):
                                             f'slices do not pass through the origin sample (precision {prec}, data {arr.dtype}): {res}', desc)
 
 
+# ------------------------------------------------------------------------------------------ classes G / H / I (HARDENING3.md)
+# Coordinate vectors of every legal kind for slices.  What the CURRENT tree (/repo @ c2c1d7f) does was established first by calling it:
+#   * RichData / Interferogram accept a negative dx (python / numpy float, int): make_xy_grid hands out DESCENDING axes with the zero
+#     (a negative zero) on sample n//2; Wavefront.focus with a negative efl produces such a container; slices() pass through n//2;
+#   * the public x / y setters take any 2-D arrays (slices() reads x[0], y[:, 0]); the public Slices(data, x, y, twosided) takes 1-D
+#     ndarrays (lists / tuples RAISE TypeError: out of domain); the slices pass through the sample nearest zero on every kind below;
+#   * the statement fixes the answer exactly when ONE sample is the origin: its coordinate is zero (or zero to rounding: |x| <= 1e-9 of
+#     the spacing) and every other sample is at least half a spacing away.  Grids without such a sample (even-length linspace(-a, a, n),
+#     an origin cropped away) are excluded and counted.
+VEC_KINDS = ['fft', 'offset', 'linspace', 'cumsum', 'recentred']
+
+
+def coord_vector(kind, n, dx, rng):
+    """1-D coordinate vector of length n, spacing dx (dx < 0: descending) whose origin sample is known by construction:
+    (vector, index of the origin sample)."""
+    j = n // 2
+    if kind == 'fft':                       # what make_xy_grid builds
+        v = (np.arange(n) - j) * dx
+    elif kind == 'offset':                  # exact zero on an arbitrary sample (a cropped / re-registered grid)
+        j = int(rng.integers(0, n))
+        v = (np.arange(n) - j) * dx
+    elif kind == 'linspace':                # zero only to rounding for some n (99, 197, 207, ...)
+        if n % 2:
+            a = dx * (n // 2)
+            v = np.linspace(-a, a, n)
+        else:
+            a = dx * n / 2
+            v = np.linspace(-a, a, n, endpoint=False)
+    elif kind == 'cumsum':                  # accumulated steps: zero to (accumulated) rounding
+        v = np.cumsum(np.full(n, dx)) - (j + 1) * dx
+    elif kind == 'recentred':               # a grid that was shifted and shifted back: zero to rounding
+        c = 1e3 * abs(dx) / 3
+        v = ((np.arange(n) - j) * dx + c) - c
+    else:
+        raise ValueError(kind)
+    return np.asarray(v, dtype=float), j
+
+
+def nearest_zero(v):
+    """Index of THE origin sample of a coordinate vector (zero to rounding, every other sample >= half a spacing away), else None."""
+    v = np.asarray(v, dtype=float)
+    if v.ndim != 1 or v.size == 0 or not np.isfinite(v).all():
+        return None
+    if v.size == 1:
+        return 0
+    a = np.abs(v)
+    j = int(np.argmin(a))
+    step = float(np.abs(np.diff(v)).min())
+    if step > 0 and a[j] <= 1e-9 * step and float(np.delete(a, j).min()) >= 0.5 * step:
+        return j
+    return None
+
+
+def vec_label(v, j):
+    n = v.size
+    direction = 'single-sample' if n == 1 else 'ascending' if v[-1] > v[0] else 'descending'
+    zero = 'exact-zero' if v[j] == 0 else 'zero-to-rounding'
+    return f'{direction},{zero},{"at-n//2" if j == n // 2 else "off-centre"}'
+
+
+def _slice_centres(sl, data, two):
+    """(row, column) the returned slices actually pass through: from the object's centre attributes when it has them, else recovered from
+    the returned values (small arrays with distinct values), else (None, None)."""
+    cy, cx = getattr(sl, 'center_y', None), getattr(sl, 'center_x', None)
+    if cy is not None and cx is not None:
+        try:
+            return int(cy), int(cx)
+        except Exception:
+            pass
+    if data.size > 4096:
+        return None, None
+    n0, n1 = data.shape
+    vx, vy = np.asarray(sl.x[1]), np.asarray(sl.y[1])
+    rows = [(r, c) for r in range(n0) for c in ((0,) if two else range(n1)) if _same(vx, data[r, c:])]
+    cols = [(r, c) for c in range(n1) for r in ((0,) if two else range(n0)) if _same(vy, data[r:, c])]
+    cy = rows[0][0] if rows else (cols[0][0] if cols and not two else None)
+    cx = cols[0][1] if cols else (rows[0][1] if rows and not two else None)
+    return cy, cx
+
+
+def judge_special_slices(ctx, sl, data, xs, ys, jy, jx, two, desc, route):
+    """The slices pass through the sample (jy, jx) — the one nearest the origin of the coordinate vectors the caller supplied.
+    One key per CLASS of the coordinate vector whose origin sample was missed (direction, exact / rounded zero, position)."""
+    ctx.observe('special.slices.nearest-zero-sample')
+    res = _judge_slices_against(sl, data, xs, ys, jy, jx, two, exact=True)
+    if res is True:
+        return True
+    n0, n1 = data.shape
+    cy, cx = _slice_centres(sl, data, two)
+    labs = []
+    if cy is not None and cy != jy:
+        labs.append('y:' + vec_label(ys, jy))
+    if cx is not None and cx != jx:
+        labs.append('x:' + vec_label(xs, jx))
+    if not labs and res == 'abscissae':       # the right samples on the wrong coordinates: name the class of the vector that came back changed
+        ex, ey = (xs, ys) if two else (xs[jx:], ys[jy:])
+        if not _same(sl.x[0], ex):
+            labs.append('x:' + vec_label(xs, jx))
+        if not _same(sl.y[0], ey):
+            labs.append('y:' + vec_label(ys, jy))
+    if not labs:
+        labs = ['unattributed']
+    for lab in sorted(set(l.split(':', 1)[-1] for l in labs)):
+        ctx.violation(f'C04/slices/special:{lab}/{res}',
+                      f'slices ({route}, {"two" if two else "one"}-sided) do not pass through the sample nearest the origin of the coordinate vectors, '
+                      f'sample ({jy},{jx}) of the {n0}x{n1} array: {res} differ', desc, passes_through=[cy, cx], wrong_axes=labs)
+    return False
+
+
+def special_slices_workload(ctx, rng):
+    from prysm import propagation
+    from prysm.interferogram import Interferogram
+    try:
+        from prysm.interferogram import Slices
+    except ImportError:
+        from prysm._richdata import Slices
+    RichData = _richdata_class()
+    DXS = [1.0, 0.25, 3.3, 0.37, 1 / 3, 1e-9, 1e9, 12.5]
+    NS = ctx.pick(9, 33)
+    k = -1
+    for n0 in range(1, NS + 1):
+        for n1 in range(1, NS + 1):
+            k += 1
+            if not ctx.mine(k):
+                continue
+            a = marker_array((n0, n1), 'float64', rng)
+            for q, (kx, sx) in enumerate(itertools.product(VEC_KINDS, (1, -1))):
+                ky = VEC_KINDS[(k + q) % len(VEC_KINDS)]
+                sy = 1 if (k + q // 2) % 2 else -1
+                dx = DXS[(k + q) % len(DXS)]
+                xs, jx = coord_vector(kx, n1, sx * dx, rng)
+                ys, jy = coord_vector(ky, n0, sy * dx, rng)
+                desc = {'wl': 'special-slices', 'shape': (n0, n1), 'x': f'{kx}{"+" if sx > 0 else "-"}', 'y': f'{ky}{"+" if sy > 0 else "-"}', 'dx': dx,
+                        'origin': (jy, jx), 'class': f'special-slices:{kx}{sx:+d},{ky}{sy:+d}:{parity(n0)}{parity(n1)}'}
+                ctx.case(desc, nontrivial=n0 * n1 >= 2)
+                if nearest_zero(xs) != jx or nearest_zero(ys) != jy:
+                    ctx.skip('special slices: the constructed vector has no unique origin sample (monitor-side check), not judged')
+                    continue
+                with ctx.guard('C04/slices/special', desc):
+                    for two in (True, False):
+                        # route 1: the public Slices class on user vectors
+                        sl = Slices(a, xs, ys, two) if (k + q) % 2 else Slices(data=a, x=xs, y=ys, twosided=two)
+                        judge_special_slices(ctx, sl, a, xs, ys, jy, jx, two, desc, 'Slices(data, x, y)')
+                        # route 2: the public x / y setters of a container (2-D arrays), then slices()
+                        rd = RichData(a, dx, None) if q % 2 else Interferogram(a.copy(), dx=dx)
+                        if (k + q) % 3 == 0:
+                            rd.x, rd.y              # the library's own grid was read before it is replaced
+                        X, Y = np.meshgrid(xs, ys)
+                        rd.x, rd.y = X, Y
+                        judge_special_slices(ctx, rd.slices(twosided=two), rd.data, xs, ys, jy, jx, two, desc, 'x / y setters, then slices()')
+            # route 3: negative sample spacing handed to the containers (the make_xy_grid contract sees the grid)
+            for q, (mk, dxv) in enumerate(((lambda d, v: RichData(d, v, None), -0.25), (lambda d, v: Interferogram(d, dx=v), np.float64(-3.3)),
+                                           (lambda d, v: RichData(d, v, None), -1), (lambda d, v: Interferogram(d, v), -1e9),
+                                           (lambda d, v: RichData(data=d, dx=v, wavelength=1.0), -1e-9))):
+                desc = {'wl': 'special-slices-negative-dx', 'shape': (n0, n1), 'dx': float(dxv), 'container': q,
+                        'class': f'special-slices:negative-dx:{parity(n0)}{parity(n1)}'}
+                ctx.case(desc, nontrivial=n0 * n1 >= 2)
+                with ctx.guard('C04/slices/special', desc):
+                    o = mk(a.copy(), dxv)
+                    xs, ys = (np.arange(n1) - n1 // 2) * float(dxv), (np.arange(n0) - n0 // 2) * float(dxv)
+                    for two in (True, False):
+                        sl = o.slices(twosided=two)
+                        gx, gy = o.x[0], o.y[:, 0]
+                        if not (np.shape(gx) == (n1,) and np.shape(gy) == (n0,) and np.allclose(gx, xs, rtol=1e-14, atol=0) and np.allclose(gy, ys, rtol=1e-14, atol=0)
+                                and gx[n1 // 2] == 0 and gy[n0 // 2] == 0):
+                            ctx.skip('special slices: the container grid for a negative dx is not the fft grid (judged by the make_xy_grid contract)')
+                            continue
+                        judge_special_slices(ctx, sl, o.data, np.asarray(gx), np.asarray(gy), n0 // 2, n1 // 2, two, desc, 'container with negative dx')
+            # route 4: Wavefront.focus with a negative focal length -> containers with a negative dx
+            if n0 >= 2 and n1 >= 2 and k % 3 == 0:
+                Q = [1, 2, 1.5][k % 3 if k % 9 else 0]
+                desc = {'wl': 'special-slices-focus', 'shape': (n0, n1), 'Q': Q, 'efl': -80.0, 'class': f'special-slices:focus(efl<0):{parity(n0)}{parity(n1)}'}
+                ctx.case(desc)
+                with ctx.guard('C04/slices/special', desc):
+                    w = propagation.Wavefront(marker_array((n0, n1), 'complex128', rng), 0.5, 0.75)
+                    p = w.focus(-80.0, Q)
+                    for part in ('intensity', 'real'):
+                        o = getattr(p, part)
+                        m0, m1 = o.data.shape
+                        gx, gy = np.asarray(o.x[0]), np.asarray(o.y[:, 0])
+                        if nearest_zero(gx) != m1 // 2 or nearest_zero(gy) != m0 // 2 or not float(p.dx) < 0:
+                            ctx.skip('special slices: focus with a negative efl did not yield a descending fft grid, not judged here')
+                            continue
+                        for two in (True, False):
+                            judge_special_slices(ctx, o.slices(twosided=two), o.data, gx, gy, m0 // 2, m1 // 2, two, desc, f'focus(efl<0).{part}')
+
+    # every length 1 .. NL for the vectors whose origin is zero only to rounding (np.linspace(-1, 1, n)[n//2] = -1.1e-16 for n = 99, 197, ...)
+    NL = ctx.pick(420, 4000)
+    for n in range(1, NL + 1):
+        if not ctx.mine(n):
+            continue
+        for q, (kind, s) in enumerate(itertools.product(('linspace', 'cumsum', 'recentred'), (1, -1))):
+            dx = [1.0, 2.0 / max(n - 1, 1), 0.37, 1e-9, 1e9, 1 / 3][(n + q) % 6]
+            if kind == 'linspace' and q % 2 == 0 and n % 2 and n > 1:
+                dx = 1.0 / (n // 2)             # np.linspace(-1, 1, n) itself
+            v, j = coord_vector(kind, n, s * dx, rng)
+            along = (n + q) % 2             # the long vector as x (columns) or as y (rows)
+            m = 3 - (n + q) % 2 if n > 1 else 1
+            other, jo = coord_vector('fft', m, dx, rng)
+            shape = (m, n) if along else (n, m)
+            desc = {'wl': 'special-slices-long', 'shape': shape, 'kind': kind, 'sign': s, 'dx': dx, 'class': f'special-slices-long:{kind}{s:+d}:{parity(n)}'}
+            ctx.case(desc, nontrivial=n >= 2)
+            if nearest_zero(v) != j:
+                ctx.skip('special slices: the constructed vector has no unique origin sample (monitor-side check), not judged')
+                continue
+            a = np.arange(1.0, shape[0] * shape[1] + 1).reshape(shape)
+            xs, ys, jx, jy = (v, other, j, jo) if along else (other, v, jo, j)
+            with ctx.guard('C04/slices/special', desc):
+                for two in (True, False):
+                    judge_special_slices(ctx, Slices(a, xs, ys, two), a, xs, ys, jy, jx, two, desc, 'Slices(data, x, y)')
+
+
+PAD_MODES = ['edge', 'reflect', 'symmetric', 'wrap', 'linear_ramp', 'maximum', 'mean', 'median', 'minimum']
+
+
+def pad_sweep_workload(ctx, rng):
+    """Class I: every axis length 1 .. 64 x pad count 0 .. 9 (both axes see every cell; the axis-1 cell of case k is cell 7k+3 mod 640) through
+    EVERY pad form of the property and back through every crop form.  Class H: pad count 0 (pad to the same size), crop to the same size, and
+    Q exactly 1 passed together with a non-trivial out_shape / fill / mode."""
+    from prysm import fttools, propagation
+    from prysm.interferogram import Interferogram
+    NL, NP = ctx.pick(64, 96), ctx.pick(10, 14)
+    cells = [(n, p) for n in range(1, NL + 1) for p in range(NP)]
+    nc = len(cells)
+    mult = 7 if nc % 7 else 11
+    nan = float('nan')
+    for k, (n0, p0) in enumerate(cells):
+        if not ctx.mine(k):
+            continue
+        n1, p1 = cells[(mult * k + 3) % nc]
+        o0, o1 = n0 + p0, n1 + p1
+        S = (o0, o1)
+        fill = [0, nan, 1.5, -2.0][k % 4]
+        dtype = ['float64', 'float32'][(k // 4) % 2]
+        cls = f'{cell_class(n0, o0)},{cell_class(n1, o1)}'
+        zero = ('pad0' if p0 == 0 else '') + ('|pad0' if p1 == 0 else '')
+        desc = {'wl': 'pad-sweep', 'in': (n0, n1), 'pad': (p0, p1), 'out': S, 'fill': fill, 'dtype': dtype, 'class': f'pad-sweep:{cls}:{zero}'}
+        ctx.case(desc, nontrivial=(n0 * n1 >= 2 or p0 + p1 > 0))
+        a0 = marker_array((n0, n1), dtype, rng)
+        Q1 = [1, 1.0, np.float64(1), np.int64(1)][k % 4]
+        results = []
+        with ctx.guard('C04/pad-sweep/pad2d', desc):
+            results.append(('pad2d(out_shape=)', 'canonical', fttools.pad2d(a0.copy(), out_shape=S, value=fill)))
+            results.append(('pad2d(Q=1,out_shape=)', 'canonical', fttools.pad2d(a0.copy(), Q1, fill, 'constant', S)))
+            w = propagation.Wavefront(a0.copy(), 0.5, 1.0)
+            r = w.pad2d(Q1, value=fill, out_shape=S, inplace=bool(k % 2))
+            results.append(('Wavefront.pad2d(Q=1,out_shape=)', 'canonical', r.data))
+        with ctx.guard('C04/pad-sweep/Interferogram.pad', desc):
+            o = Interferogram(a0.copy(), dx=0.37)
+            if k % 3 == 0:
+                o.x, o.r
+            o.pad(fill, samples=(p0, p1)) if k % 2 else o.pad(value=fill, samples=[p0, p1])
+            results.append(('Interferogram.pad(samples=)', 'canonical', o.data))
+            ctx.observe('sweep.pad-forms')
+            x, y = o.x, o.y
+            if not (np.shape(x) == S and x[o0 // 2, o1 // 2] == 0 and y[o0 // 2, o1 // 2] == 0):
+                ctx.violation('C04/Interferogram.pad(samples=)/grid-origin-not-at-n//2', 'after pad the coordinates of the object do not have their '
+                              'zero at sample (n0//2, n1//2)', desc)
+            o = Interferogram(a0.copy(), dx=2.0)
+            o.pad(fill, shape=S) if k % 2 == 0 else o.pad(value=fill, shape=list(S))
+            results.append(('Interferogram.pad(shape=)', 'canonical', o.data))
+            if fill != fill:
+                o = Interferogram(a0.copy(), dx=1.0)
+                o.pad(samples=(p0, p1))                 # the documented default fill
+                results.append(('Interferogram.pad(samples=)', 'value=omitted', o.data))
+            if p0 == p1:
+                o = Interferogram(a0.copy(), dx=1.0)
+                o.pad(fill, samples=p0)
+                results.append(('Interferogram.pad(samples=)', 'samples=int', o.data))
+        bad = False
+        for routine, form, res in results:
+            ok = judge_pad_form(ctx, 'sweep.pad-forms', routine, form, res, a0, S, fill, desc, False)
+            bad = bad or not ok
+        # np.pad modes: placement of the block and agreement with numpy.pad of that placement
+        mode = PAD_MODES[k % len(PAD_MODES)]
+        if mode == 'reflect' and (p0 >= n0 or p1 >= n1 or n0 < 2 or n1 < 2):
+            mode = 'edge'
+        if mode in ('symmetric', 'wrap') and (p0 > n0 or p1 > n1):
+            mode = 'edge'
+        with ctx.guard('C04/pad-sweep/pad2d(mode=)', dict(desc, mode=mode)):
+            pm = fttools.pad2d(a0.copy(), Q1, 0, mode, S) if k % 2 else fttools.pad2d(a0.copy(), mode=mode, out_shape=list(S))
+            ctx.observe('sweep.pad-forms')
+            refm, offs = ref_pad(a0, S, mode, 0)
+            if not _same(pm, refm):
+                blk = pm[offs[0]:offs[0] + n0, offs[1]:offs[1] + n1] if np.shape(pm) == S else None
+                kind = 'shape' if blk is None else 'border-values' if _same(blk, a0) else 'origin-misplaced'
+                axes = sorted(set((cell_class(n0, o0), cell_class(n1, o1))))
+                ctx.violation(f'C04/pad2d(mode=)/{kind}' + ('' if kind == 'shape' else '/' + '|'.join(axes)), f'pad2d(mode={mode}) does not put input sample i//2 at output sample o//2 / '
+                              'is not numpy.pad of that placement', dict(desc, mode=mode))
+                bad = True
+        if bad:
+            continue
+        # and back: every crop form undoes every pad exactly; crop to the same size is the identity
+        ref = results[0][2]
+        with ctx.guard('C04/pad-sweep/crop', desc):
+            back = [('crop_center', fttools.crop_center(ref, (n0, n1))), ('crop_center', fttools.crop_center(pm, [n0, n1])),
+                    ('Wavefront.crop', propagation.Wavefront(ref.copy(), 0.5, 1.0).crop((n0, n1), inplace=bool(k % 2)).data),
+                    ('crop_center(same size)', fttools.crop_center(a0.copy(), (n0, n1))),
+                    ('Wavefront.crop(same size)', propagation.Wavefront(a0.copy(), 0.5, 1.0).crop([n0, n1], inplace=not k % 2).data)]
+            for routine, got in back:
+                ctx.observe('roundtrip.crop(pad)')
+                if not _same(got, a0):
+                    axes = sorted(set((cell_class(o0, n0), cell_class(o1, n1))))
+                    ctx.violation(f'C04/roundtrip/{routine}/{"|".join(axes)}', f'{routine} does not undo the pad exactly (in {(n0, n1)}, padded {S})', desc)
+
+
 def run(ctx):
     global CTX
     CTX = ctx
@@ -1758,6 +2089,9 @@ def _run(ctx):
     reuse_workload(ctx, rng)
     # --- 6b. argument forms (class E), with foreign-traffic preludes (class F) before a share of the cells ------
     forms_workload(ctx, rng)
+    # --- 6c. special values / magnitudes / structural sweeps (HARDENING3.md classes G, H, I) --------------------
+    special_slices_workload(ctx, ctx.rng('c04-special'))
+    pad_sweep_workload(ctx, ctx.rng('c04-sweep'))
     # --- 7. histories on one object (class B), a share of them under precision 32 first (class C) -----
     history_workload(ctx)
     # --- 8. precision 32 -> 64 switch for the grid routines (class C) ---------------------------------
